@@ -57,6 +57,14 @@ def JL.isNil : JL → Bool
   | .nil => true
   | _ => false
 
+def JL.length : JL → Nat
+  | .nil => 0
+  | .cons _ t => t.length + 1
+
+/-- `getJsonUnmarshaler(opts...)`: any option ⇒ a NEW unmarshaller built from exactly these options (so the options
+of one call cannot reach another), none ⇒ the package-level default one (which carries no option). -/
+def freshUnmarshaler (nOpts : Nat) : Bool := nOpts != 0
+
 /-! ### types of the family -/
 
 inductive Prim where
@@ -742,6 +750,8 @@ def genMap (o : Opts) (t : Ty) : JM → R VM
         | .obj m => (genMap o t' m).map .map
         | _ => .error .err
       | .prim p => mapElemPrim p x
+      -- `SetMapIndexValue(elemType, …, target.Elem())`: the entry points at the cell allocated for THIS key
+      | .ptr (.prim p) => (mapElemPrim p x).map .ptr
       | .ptr _ => .error .unmodelled
     match ev with
     | .error e => .error e
@@ -752,6 +762,62 @@ def genMap (o : Opts) (t : Ty) : JM → R VM
 termination_by m => (sizeOf t, sizeOf m, 0)
 
 end
+
+/-! ### allocation discipline of `generateMap` / `fillSlice`
+
+`Val` is a tree: two entries of a decoded map / slice never share a cell.  This is what the code does as long as the
+cell an entry points at is allocated inside the loop over the keys / indices (`target := reflect.New(…)` in the loop
+body of `generateMap`, `conv.Index(i)` / `reflect.New` per index in `fillSlice` / `fillSliceValue` /
+`fillStructElement`); Tie `tie_genMapAlloc`, `tie_fillSliceAlloc` pin the allocation sites.  `entryCells` states the
+discipline explicitly: the address handed to every entry of one container. -/
+
+inductive AllocSite where
+  | perEntry   -- allocated in the loop body: a fresh cell for every key / index (the code that exists)
+  | hoisted    -- one scratch cell allocated before the loop (seeded change C17-5)
+  deriving DecidableEq, Repr
+
+/-- the cell of each entry; `next` = the allocator's next free address. -/
+def entryCells (site : AllocSite) (next : Nat) : List Str → List (Str × Nat)
+  | [] => []
+  | k :: ks =>
+    match site with
+    | .perEntry => (k, next) :: entryCells site (next + 1) ks
+    | .hoisted => (k, next) :: entryCells site next ks
+
+/-- the discipline the model (a tree of values) stands for. -/
+def genMapSite : AllocSite := .perEntry
+def fillSliceSite : AllocSite := .perEntry
+
+/-- `conf.Load`: the option record is a fresh zero value per call (`var opt options` inside `Load`), every option of
+THIS call is applied to it.  `shared = some st`: the record lives outside the call (seeded change C17-4: a pointer to a
+package-level default) and `st` is what earlier calls left in it. -/
+structure ConfOptions where
+  env : Bool := false
+  deriving DecidableEq, Repr
+
+inductive ConfOption where
+  | useEnv
+  deriving DecidableEq, Repr
+
+def ConfOption.apply (_ : ConfOption) (_ : ConfOptions) : ConfOptions := { env := true }
+
+/-- `var opt options; for _, o := range opts { o(&opt) }`. -/
+def buildOptions (opts : List ConfOption) : ConfOptions := opts.foldl (fun acc o => o.apply acc) {}
+
+/-- the same loop over a record that outlives the call (NOT the code that exists). -/
+def buildOptionsShared (st : ConfOptions) (opts : List ConfOption) : ConfOptions := opts.foldl (fun acc o => o.apply acc) st
+
+/-- a sequence of `conf.Load` calls in one process: (options of the call, content); what each call hands to its loader. -/
+def loadSeq (expand : Str → Str) : List (List ConfOption × Str) → List Str
+  | [] => []
+  | (opts, c) :: rest => (if (buildOptions opts).env then expand c else c) :: loadSeq expand rest
+
+/-- the sequence with a record shared between the calls. -/
+def loadSeqShared (expand : Str → Str) (st : ConfOptions) : List (List ConfOption × Str) → List Str
+  | [] => []
+  | (opts, c) :: rest =>
+    let o := buildOptionsShared st opts
+    (if o.env then expand c else c) :: loadSeqShared expand o rest
 
 /-! ### `buildFieldsInfo` and `toLowerCaseKeyMap` -/
 
